@@ -160,32 +160,45 @@ Proof. exact ServoP.step_sev_count. Qed.
 Print Assumptions C19_servo_event_count.
 
 (* ====================================================================== *)
-(* IEEE specials as calibration bounds (finding F-C19-servo-nonfinite-bound) *)
+(* IEEE specials as calibration bounds.  REFUTED on the code before the repair (finding                *)
+(* F-C19-servo-nonfinite-bound, now kind=fixed): the constructor tested min >= max, which is False for  *)
+(* NaN, and accepted infinite bounds.  Model of the repaired checks (not min < max on both axes, then    *)
+(* math.isfinite of all four) over floats with specials: Host/ActuatorsX.v [servo_bounds_accepted].      *)
 (* ====================================================================== *)
 
-(* REFUTED: the constructor's two checks (min >= max) accept bounds that are not finite numbers
-   - every comparison with NaN is False - so "angle and pulse stay within their bounds" fails
-   from the construction on.  Witness: Servo(min_angle=float('nan')). *)
-Theorem C19_servo_bounds_nonfinite_refuted :
-  exists a b c d, servo_bounds_accepted a b c d = true /\
-                  ~ (xfinite a = true /\ xfinite b = true /\ xfinite c = true /\ xfinite d = true).
-Proof. exact ActuatorsXP.servo_bounds_nonfinite_refuted. Qed.
-Print Assumptions C19_servo_bounds_nonfinite_refuted.
+(* was C19_servo_bounds_nonfinite_refuted (exists a b c d accepted and not all finite): whatever the
+   constructor accepts are four finite floats *)
+Theorem C19_servo_bounds_finite : forall a b c d,
+  servo_bounds_accepted a b c d = true ->
+  xfinite a = true /\ xfinite b = true /\ xfinite c = true /\ xfinite d = true.
+Proof. exact ActuatorsXP.servo_bounds_all_finite. Qed.
+Print Assumptions C19_servo_bounds_finite.
 
-(* PARTIAL (guard: the four bounds are finite floats): accepted exactly when min < max on both
-   axes - the hypothesis servo_cfg_ok under which all theorems above are proved *)
-Theorem C19_servo_bounds_partial : forall qa qb qc qd,
+(* was C19_servo_bounds_partial (guard: the four bounds are finite floats), now without a guard: for ALL
+   floats, accepted exactly when the four are finite with min < max on both axes - the hypothesis
+   servo_cfg_ok under which all theorems above are proved *)
+Theorem C19_servo_bounds : forall a b c d,
+  servo_bounds_accepted a b c d = true <->
+  exists qa qb qc qd, a = XFin qa /\ b = XFin qb /\ c = XFin qc /\ d = XFin qd /\ qa < qb /\ qc < qd.
+Proof. exact ActuatorsXP.servo_bounds_spec. Qed.
+Print Assumptions C19_servo_bounds.
+
+(* on finite floats the checks with specials are the checks of the constructor model Host/Servo.v *)
+Theorem C19_servo_bounds_agree : forall qa qb qc qd,
   servo_bounds_accepted (XFin qa) (XFin qb) (XFin qc) (XFin qd) = true <-> qa < qb /\ qc < qd.
 Proof. exact ActuatorsXP.servo_bounds_finite. Qed.
-Print Assumptions C19_servo_bounds_partial.
+Print Assumptions C19_servo_bounds_agree.
 
 Example C19_servo_bounds_nonvacuous :
-  servo_bounds_accepted XNaN (XFin (180 # 1)) (XFin (544 # 1)) (XFin (2400 # 1)) = true /\
-  servo_bounds_accepted XNInf (XFin (180 # 1)) (XFin (544 # 1)) XPInf = true /\
-  servo_bounds_accepted (XFin 0) XNaN (XFin (544 # 1)) XNaN = true /\
+  servo_bounds_accepted XNaN (XFin (180 # 1)) (XFin (544 # 1)) (XFin (2400 # 1)) = false /\
+  servo_bounds_accepted XNInf (XFin (180 # 1)) (XFin (544 # 1)) (XFin (2400 # 1)) = false /\
+  servo_bounds_accepted (XFin 0) (XFin (180 # 1)) (XFin (544 # 1)) XPInf = false /\
+  servo_bounds_accepted (XFin 0) XNaN (XFin (544 # 1)) XNaN = false /\
+  servo_bounds_accepted (XFin 0) (XFin (180 # 1)) XNaN (XFin (2400 # 1)) = false /\
   servo_bounds_accepted XPInf XPInf (XFin (544 # 1)) (XFin (2400 # 1)) = false /\
   servo_bounds_accepted (XFin 0) XNInf (XFin (544 # 1)) (XFin (2400 # 1)) = false /\
   servo_bounds_accepted (XFin 0) (XFin (180 # 1)) (XFin (2400 # 1)) (XFin (544 # 1)) = false /\
+  servo_bounds_accepted (XFin (90 # 1)) (XFin (90 # 1)) (XFin (544 # 1)) (XFin (2400 # 1)) = false /\
   servo_bounds_accepted (XFin 0) (XFin (180 # 1)) (XFin (544 # 1)) (XFin (2400 # 1)) = true.
 Proof. vm_compute. repeat split. Qed.
 Print Assumptions C19_servo_bounds_nonvacuous.
